@@ -25,6 +25,7 @@ class RefPeer(Peer):
         self.rlat = list(rlat)
         self.dt_gap = list(dt_gap)
         self.bam_gap = list(bam_gap)
+        self.rlat_seq = None            # optional: reply latencies consumed one per reply decision (scripted peer timing)
         self.rx = {}                    # responder sessions
         self.tx = None                  # originator session
         self.received = []              # (pgn, sa, da, payload)
@@ -77,7 +78,7 @@ class RefPeer(Peer):
             s = {'sess': d['sess'], 'o': fr.sa, 'size': d['size'], 'n': d['nseg'], 'limit': d['limit'] or 255,
                  'pgn': d['pgn'], 'data': [], 'next': 1, 'win_end': 0, 'bam': False, 'done': False}
             self.rx[key] = s
-            lat = self.w.choose('p.rlat', self.rlat)
+            lat = self.rlat_seq.pop(0) if self.rlat_seq else self.w.choose('p.rlat', self.rlat)
             holds = self.w.choose('p.holds', self.holds)
             self.later(lat, lambda: self.hold_then_cts(s, holds))
         elif t == 'BAM' and fr.ps == 255:
